@@ -146,20 +146,37 @@ func runC33(c *eng.Ctx) {
 			return
 		}
 		b, ok := iff.Cond.(*ssa.BinOp)
-		if !ok || b.Op != token.LSS {
+		if !ok || (b.Op != token.LSS && b.Op != token.GTR) {
 			return
 		}
 		phi, ok := b.X.(*ssa.Phi)
 		if !ok {
 			return
 		}
-		if k, isC := eng.ConstInt64(b.Y); isC {
-			bound = k
-			for j, e := range phi.Edges {
-				if v, isC := eng.ConstInt64(e); isC && !phi.Block().Dominates(phi.Block().Preds[j]) {
-					init = v
+		k, isC := eng.ConstInt64(b.Y)
+		if !isC {
+			return
+		}
+		var start, step int64 = -1, 0
+		for j, e := range phi.Edges {
+			if v, isC := eng.ConstInt64(e); isC && !phi.Block().Dominates(phi.Block().Preds[j]) {
+				start = v
+			} else if st, isB := e.(*ssa.BinOp); isB && st.X == ssa.Value(phi) && constIs(st.Y, 1) {
+				switch st.Op {
+				case token.ADD:
+					step = 1
+				case token.SUB:
+					step = -1
 				}
 			}
+		}
+		// normalise to «counter from 0, bound = number of iterations»:
+		// for i := a; i < b; i++ runs b-a times, for n := a; n > b; n-- runs a-b times
+		switch {
+		case b.Op == token.LSS && step == 1 && start >= 0:
+			init, bound = 0, k-start
+		case b.Op == token.GTR && step == -1 && start >= 0:
+			init, bound = 0, start-k
 		}
 	})
 	c.Check("R3", "waits-for-all-copies", fn.Pos(), init == 0 && bound == int64(nGo) && capV == bound && nGo == 2, "the function awaits one result per copy goroutine (counter from 0, bound = goroutines = channel capacity)", fmt.Sprintf("init=%d bound=%d goroutines=%d capacity=%d", init, bound, nGo, capV))
